@@ -340,12 +340,10 @@ theorem allocFind_sim {ft : FatType} {f : Array Nat} {total : Nat} (ht : TableOk
   cases h1 : findFreeV (view ft f) start (total + 2 - start) with
   | some c => rfl
   | none =>
-    simp only [scanRes, fatalErr]
     by_cases h2 : start > 2
-    · rw [if_pos h2, if_pos h2]
-      simp only [Bool.false_eq_true, if_false]
+    · simp only [scanRes, h2, and_self, if_true]
       exact findFree_sim ht h2 (by omega)
-    · rw [if_neg h2, if_neg h2]; rfl
+    · simp only [scanRes, h2, and_false, if_false]
 
 theorem tableOk_set {ft : FatType} {f f' : Array Nat} {total c : Nat} {v : FatValue} (ht : TableOk ft f total)
     (h : set ft f c v = .ok f') : TableOk ft f' total := by
@@ -441,9 +439,26 @@ theorem iterAdvance_view {ft : FatType} {f : Array Nat} {c : Nat} (h : InRange f
     iterAdvance ft f (iterNew c) = ⟨nextV (view ft f) c, false⟩ := by
   simp [iterAdvance, iterNew, chainNext_view h]
 
-theorem iterPanics_view {ft : FatType} {f : Array Nat} {c : Nat} (h : InRange ft f c) :
-    iterPanics ft f (iterNew c) = false := by
-  simp [iterPanics, iterNew, chainNext_view h]
+theorem iterItem_view {ft : FatType} {f : Array Nat} {c : Nat} (h : InRange ft f c) :
+    iterItem ft f (iterNew c) = (nextV (view ft f) c).map .ok := by
+  simp only [iterItem, iterNew, chainNext_view h]
+  cases nextV (view ft f) c <;> rfl
+
+/-- one iteration of the `free` loop on a readable, writable entry -/
+theorem freeLoop_step {ft : FatType} {f f1 : Array Nat} {c : Nat} (k cnt : Nat) (h : InRange ft f c)
+    (h1 : set ft f c .free = .ok f1) :
+    freeLoop ft (k + 1) f (iterNew c) cnt = freeLoop ft k f1 ⟨nextV (view ft f) c, false⟩ (cnt + 1) := by
+  have hit := iterItem_view h
+  have hadv := iterAdvance_view h
+  simp only [iterNew] at hit hadv ⊢
+  simp only [freeLoop, hit, hadv, h1]
+  cases nextV (view ft f) c <;> rfl
+
+theorem truncateChain_step {ft : FatType} {f f1 : Array Nat} {c : Nat} (fuel : Nat) (h : InRange ft f c)
+    (h1 : set ft f c .eoc = .ok f1) :
+    truncateChain ft f c fuel = freeLoop ft fuel f1 ⟨nextV (view ft f) c, false⟩ 0 := by
+  simp only [truncateChain, iterItem_view h, iterAdvance_view h, h1]
+  cases nextV (view ft f) c <;> rfl
 
 /-- `ClusterIterator::free` on an acyclic chain inside the table: returns the chain length, frees its members, and
     leaves every other entry's raw value (incl. FAT32 reserved bits) untouched -/
@@ -463,13 +478,7 @@ theorem freeLoop_sim {ft : FatType} : ∀ (cs : List Nat) (f : Array Nat) (c : N
     obtain ⟨f1, h1⟩ := set_ok_of_inRange (v := .free) hpc.1 (fun hft _ => hpc.2 hft)
     have hv1 := view_set hf (v := .free) (by cases ft <;> trivial) hpc.2 h1
     have hfits : FitsWidth ft .free := fits_free ft
-    have hstep : freeLoop ft (fuel + 1) f (iterNew c) cnt =
-        freeLoop ft fuel f1 ⟨nextV (view ft f) c, false⟩ (cnt + 1) := by
-      have hpan := iterPanics_view hpc.1
-      have hadv := iterAdvance_view hpc.1
-      simp only [iterNew] at hpan hadv ⊢
-      simp [freeLoop, hpan, hadv, h1]
-    rw [hstep]
+    rw [freeLoop_step fuel cnt hpc.1 h1]
     cases h with
     | last _ hl =>
       refine ⟨f1, ?_, set_size h1, set_wf hf h1, ?_, ?_⟩
@@ -518,9 +527,7 @@ theorem truncateChain_sim {ft : FatType} {f : Array Nat} {c : Nat} {t : List Nat
   obtain ⟨f1, h1⟩ := set_ok_of_inRange (v := .eoc) hpc.1 (by intro _ h; cases h)
   have hv1 := view_set hf (v := .eoc) (by cases ft <;> trivial) hpc.2 h1
   have hfits : FitsWidth ft .eoc := fits_eoc ft
-  unfold truncateChain
-  rw [iterPanics_view hpc.1, h1, iterAdvance_view hpc.1]
-  simp only [Bool.false_eq_true, if_false]
+  rw [truncateChain_step fuel hpc.1 h1]
   cases h with
   | last _ hl =>
     refine ⟨f1, ?_, set_size h1, set_wf hf h1, ?_, ?_, ?_⟩
